@@ -74,6 +74,10 @@ pub fn grid(thorough: bool) -> Vec<GridNum> {
     g.push(comp("(min 3 7/2)", int(3)));
     g.push(comp("(abs -1/2)", exact(1, 2)));
     g.push(comp("(floor 7/2)", int(3)));
+    // integers that come out of operations on ratios (reciprocal of a unit fraction, products)
+    g.push(comp("(/ 1/2)", int(2)));
+    g.push(comp("(/ -1/3)", int(-3)));
+    g.push(comp("(* 2/3 3/2)", int(1)));
     for t in [
         "0.0", "-0.0", "0.5", "-2.5", "1.5", "3.0", "-3.0", "1e10", "16777216.0", "1e38", "1e-45",
         "0.1", "-1e10", "7.25",
